@@ -176,6 +176,9 @@ Definition sdot (a b : list R) : R := rsumR (map (fun p => fst p * snd p) (combi
 Lemma tdot_RR a b : tdot RR a b = sdot a b.
 Proof. unfold tdot, sdot. rewrite tsum_RR. reflexivity. Qed.
 
+Lemma Rabs_le_between' x y : Rabs x <= y -> - y <= x <= y.
+Proof. unfold Rabs; destruct (Rcase_abs x); lra. Qed.
+
 Lemma sq_le_le x y : 0 <= y -> x * x <= y * y -> x <= y.
 Proof. intros Hy H. destruct (Rle_dec x y); [assumption|]. exfalso. nra. Qed.
 
@@ -288,7 +291,7 @@ Proof.
     rewrite Hprod. field. split; lra. }
   rewrite Hq.
   assert (Hs : 0 < sqrt (Sxx * Syy)) by (apply sqrt_lt_R0; nra).
-  apply Rabs_le_inv. unfold Rdiv. rewrite Rabs_mult, (Rabs_right (/ _)).
+  apply Rabs_le_between'. unfold Rdiv. rewrite Rabs_mult, (Rabs_right (/ _)).
   - apply (Rmult_le_reg_r (sqrt (Sxx * Syy))); [exact Hs|].
     rewrite Rmult_assoc, Rinv_l by lra. lra.
   - apply Rle_ge, Rlt_le, Rinv_0_lt_compat; exact Hs.
